@@ -109,7 +109,8 @@ def str_contains(interp, e, fr):
     return VBool(z3.Contains(a.z, b.z))
 
 
-def build(P):
+def build(P, tf_options=(True, False), filters=True):
+    """tf_options / filters: C07 re-runs only the ego-relative core (_is_target_object with a transform registry)"""
     idx = P.index
     models(P)
     P.min_obligations = 60
@@ -132,7 +133,7 @@ def build(P):
                                   f"implies(result is not None, forall(j, 0, len(target_labels), implies({first0('j')}, result == threshold_list[j])))"))
     P.contract(glt(TReal()), name="get_label_threshold[real thresholds]")
     P.verify("common.threshold:get_label_threshold", name="get_label_threshold[int thresholds]", contract=glt(TInt()))
-    for tf_given in (True, False):
+    for tf_given in tf_options:
         tag = "transforms given" if tf_given else "ego frame, no transforms"
         tf = "transforms" if tf_given else None
         pr = params(tf_given)
@@ -145,6 +146,8 @@ def build(P):
                          requires=list_requires() + frame_req + pnum_req,
                          ensures=keep_ensures("dynamic_object", "is_gt", tf))
         P.verify(f"{OF}:_is_target_object", name=f"_is_target_object[{tag}]", contract=c_obj)
+        if not filters:
+            continue
         # ------------------------------------------------------------------ filter_objects: exactly the kept ones, in order, input untouched
         # Modular step: inside filter_objects the callee is known only through the abstract contract
         #   _is_target_object(o, args...) == kept(o, args...)
